@@ -20,9 +20,9 @@ func init() {
 func applyToggle(t string) bool {
 	switch t {
 	case "M0":
-		hijri.SetUseMonthData(false)
+		setMonthData(false)
 	case "M1":
-		hijri.SetUseMonthData(true)
+		setMonthData(true)
 	case "A0":
 		jalali.SetAlgorithm2820(false)
 	case "A1":
@@ -83,7 +83,7 @@ func byNameHandler(args []string) (string, []string) {
 			return "bad-request", nil
 		}
 		if hist != "-" {
-			hijri.SetUseMonthData(true)
+			setMonthData(true)
 			jalali.SetAlgorithm2820(false)
 			for _, t := range strings.Split(hist, ",") {
 				if !applyToggle(t) {
@@ -142,7 +142,7 @@ func byNameHandler(args []string) (string, []string) {
 		}
 		if hist != "-" {
 			// back to the default configuration, then the requested switches
-			hijri.SetUseMonthData(true)
+			setMonthData(true)
 			jalali.SetAlgorithm2820(false)
 			for _, t := range strings.Split(hist, ",") {
 				if !applyToggle(t) {
@@ -264,8 +264,8 @@ func hijriTableSeam(ct cal_types.CalType, jd int) bool {
 	if !strings.Contains(fmt.Sprintf("%T", ct), "hijri") {
 		return false
 	}
-	loaded, use, _, startJd, endJd, _ := hijri.VerifMonthData()
-	if !loaded || !use {
+	loaded, _, startJd, endJd, _ := hijriTable()
+	if !loaded || !curMonthData {
 		return false
 	}
 	return (jd >= startJd-31 && jd <= startJd+31) || (jd >= endJd-1 && jd <= endJd+150)
@@ -322,7 +322,7 @@ func metaDump(ps *propSink) string {
 			ps.add("C20", "cfg=%s advertised AvgYearLen=%v but the mean year length over -6000..12000 is %.6f", cfgName, c.ct.AvgYearLen(), mean)
 		}
 	}
-	hijri.SetUseMonthData(true)
+	setMonthData(true)
 	jalali.SetAlgorithm2820(false)
 	return strings.Join(parts, ";")
 }
@@ -339,4 +339,12 @@ func decimalOf(f float64) (string, string) {
 		num = "0"
 	}
 	return num, "1" + strings.Repeat("0", len(p[1]))
+}
+
+// the month-table switch as this process last set it (the library's default is on)
+var curMonthData = true
+
+func setMonthData(on bool) {
+	hijri.SetUseMonthData(on)
+	curMonthData = on
 }
